@@ -43,6 +43,11 @@ def generate(rng, n, tier, stats):
         stats['spelling'][spelling] += 1; stats['mode'][mode] += 1
         k = rng.randint(0, nd); which = sorted(rng.sample(range(nd), k))
         idxs = {i: c01.rand_index(rng, a['labels'][i], a['axdtype'][i], mode, stats) for i in which}
+        force_full_rhs = False
+        if nd >= 3 and rng.random() < 0.4:
+            # scalar + full slice + list / mask on three or more dimensions, all valid (numpy would move the indexed dimensions)
+            idxs = c01.mixed_valid_indices(rng, a, mode, stats); which = sorted(idxs)
+            force_full_rhs = rng.random() < 0.6
         if rng.random() < 0.5 or spelling in ('setitem', 'loc', 'ix', 'iloc'):
             m = (which[-1] + 1) if which else 0
             form = {'tuple': [idxs.get(i, 'full') for i in range(m)]}
@@ -53,10 +58,11 @@ def generate(rng, n, tier, stats):
         vk = rng.choice(['i', 'f', 'b', 'U']) if cast else (dtype if dtype in 'ifb' else rng.choice(['i', 'f', 'U']))
         if not cast and dtype == 'f' and rng.random() < 0.3: vk = 'i'
         stats['kind_pair'][dtype + '<-' + vk + ('/cast' if cast else '')] += 1
-        if isinstance(exp, list) and rng.random() < 0.45 and vk != 'U':
+        if force_full_rhs and vk == 'U': vk = 'f'
+        if isinstance(exp, list) and (rng.random() < 0.45 or force_full_rhs) and vk != 'U':
             box = [len(p) for p in exp if isinstance(p, list)]
             shape = list(box)
-            r = rng.random()
+            r = rng.random() if not force_full_rhs else 1.0      # the full box, one distinct value per cell
             if r < 0.3 and shape: shape = shape[1:]                       # trailing dims only
             elif r < 0.6 and shape: shape[rng.randrange(len(shape))] = 1   # a broadcast singleton
             size = 1
